@@ -647,6 +647,43 @@ func runC05(cfg *vh.Config) error {
 		res.Sample(map[string]any{"stream": "hand-built", "file": name, "value": fmt.Sprintf("%q", val), "failures": len(fails)}, 3)
 	}
 
+	// an option statement whose value is an empty message written over two lines (`= {` newline `};`): parseOption does
+	// not inline it (the source is not single-line), printOption's empty-message branch
+	for _, root := range roots {
+		if _, ok := root.Files["j5/ext/v1/annotations.proto"]; !ok {
+			continue
+		}
+		files := map[string]string{}
+		for k, v := range root.Files {
+			files[k] = v
+		}
+		name := "hand/v1/multiline.proto"
+		files[name] = "syntax = \"proto3\";\n\npackage hand.v1;\n\nimport \"j5/ext/v1/annotations.proto\";\n\nmessage Multi {\n  option (j5.ext.v1.message).object = {\n  };\n\n  string a = 1;\n}\n"
+		parsed, err := tool.ParseProto(ctx, files, []string{name})
+		if err != nil {
+			res.Notes = append(res.Notes, "hand-built multi-line option file does not parse: "+trim(err.Error(), 160))
+			break
+		}
+		for _, fd := range parsed {
+			if fd.Path() != name {
+				continue
+			}
+			caseNo++
+			res.Count("hand-built")
+			distinct.Add("hand-multiline")
+			input := map[string]any{"file": name, "source": files[name]}
+			rt, fails := roundTripOut(ctx, fd, files)
+			addFile("hand-built", fd, rt, fails, name, input)
+			if len(fails) == 0 {
+				res.Count("hand-built:round trip ok")
+			} else {
+				res.Count("hand-built:round trip fails")
+			}
+			report("hand-built", "C05 hand-written file with an empty message option over two lines", input, fails)
+		}
+		break
+	}
+
 	// two files of ONE package printed by one process, the second with a sub-package in scope that captures the first
 	// part of a foreign package name the first file also refers to (seeded C05-G: a per-package memo of the capture
 	// decision): a.proto prints common.v1.Money, b.proto must print .common.v1.Money
@@ -670,6 +707,41 @@ func runC05(cfg *vh.Config) error {
 				res.Count("hand-built")
 				distinct.Add("hand-pair:" + name)
 				input := map[string]any{"file": name, "files of the package, printed in this order": []string{"hand/v1/a.proto", "hand/v1/b.proto"}, "source": pair[name]}
+				rt, fails := roundTripOut(ctx, fd, pair)
+				addFile("hand-built", fd, rt, fails, name, input)
+				if len(fails) == 0 {
+					res.Count("hand-built:round trip ok")
+				} else {
+					res.Count("hand-built:round trip fails")
+				}
+				report("hand-built", "C05 two files of one package printed by one process", input, fails)
+			}
+		}
+	}
+
+	// the same constellation in the other order (capturing file first), with other names so that a state kept per
+	// (package, name) by the printer is fresh: r.proto must print .shared.v1.Coin, q.proto shared.v1.Coin (the model says
+	// so; a state leaking from r to q shows as a tie mismatch on q's tokens)
+	{
+		pair := map[string]string{
+			"shared/v1/coin.proto":    "syntax = \"proto3\";\npackage shared.v1;\nmessage Coin { string amount = 1; }\n",
+			"other/v1/shared/x.proto": "syntax = \"proto3\";\npackage other.v1.shared;\nmessage Local { string note = 1; }\n",
+			"other/v1/q.proto":        "syntax = \"proto3\";\npackage other.v1;\nimport \"shared/v1/coin.proto\";\nmessage Plain { shared.v1.Coin price = 1; }\n",
+			"other/v1/r.proto":        "syntax = \"proto3\";\npackage other.v1;\nimport \"shared/v1/coin.proto\";\nimport \"other/v1/shared/x.proto\";\nmessage Capturing { .shared.v1.Coin price = 1; other.v1.shared.Local local = 2; }\n",
+		}
+		parsed, err := tool.ParseProto(ctx, pair, []string{"other/v1/q.proto", "other/v1/r.proto"})
+		if err != nil {
+			res.Notes = append(res.Notes, "hand-built same-package pair (reverse) does not parse: "+trim(err.Error(), 160))
+		}
+		for _, name := range []string{"other/v1/r.proto", "other/v1/q.proto"} { // the capturing file first
+			for _, fd := range parsed {
+				if fd.Path() != name {
+					continue
+				}
+				caseNo++
+				res.Count("hand-built")
+				distinct.Add("hand-pair:" + name)
+				input := map[string]any{"file": name, "files of the package, printed in this order": []string{"other/v1/r.proto", "other/v1/q.proto"}, "source": pair[name]}
 				rt, fails := roundTripOut(ctx, fd, pair)
 				addFile("hand-built", fd, rt, fails, name, input)
 				if len(fails) == 0 {
